@@ -111,12 +111,13 @@ def cases_v(cases, digs):
             "Eval vm_compute in (map cmp cases).\n")
 
 
-def run_impl_cases(cases, full=False, backend_module=None, timeout=900, real_backend=None):
+def run_impl_cases(cases, full=False, backend_module=None, timeout=900, real_backend=None, isolate=True):
     """Run cases on the real pysnark; sharded over processes.  Returns list of records (same order)."""
     nshard = min(common.NPROC, max(1, len(cases) // 40))
     shards = [cases[i::nshard] for i in range(nshard)]
     procs = []
-    env = common.impl_env({"VERIF_FULL_TRACE": "1" if full else None, "VERIF_BACKEND_MODULE": backend_module, "VERIF_REAL_BACKEND": real_backend})
+    env = common.impl_env({"VERIF_FULL_TRACE": "1" if full else None, "VERIF_BACKEND_MODULE": backend_module, "VERIF_REAL_BACKEND": real_backend,
+                           "VERIF_NOFORK": None if isolate else "1"})
     env["PYTHONPATH"] = env["PYTHONPATH"] + os.pathsep + os.path.join(common.VERIF, "harness", "impl")
     for sh in shards:
         p = subprocess.Popen([common.PY, os.path.join(common.VERIF, "harness", "impl", "runner.py")], env=env,
